@@ -18,9 +18,12 @@ Rules(c) ==
       fA == c.finalA  fB == c.finalB
       recvd == IF pull THEN fA.received ELSE fB.received
       queued == IF pull THEN fB.queued ELSE fA.queued
+      CloseFailed(n) == \E i \in 1..Len(st) : st[i].node = n /\ st[i].obs.stim.kind = "Close" /\ st[i].obs.stim.sendFail # << >>
+      Same(n, f, e) == IF CloseFailed(n) THEN [f EXCEPT !.msg = ""] = [e EXCEPT !.msg = ""] ELSE f = e
   IN
   (IF \A i \in 1..Len(st) : st[i].obs.err = "" /\ st[i].obs.panic = "" THEN {} ELSE {"harness"})
-  \cup (IF fA = c.expA /\ c.hasB = c.expHasB /\ (c.hasB => fB = c.expB) THEN {} ELSE {"conf"})
+  \* a Close whose Cancel message cannot be sent: the failed send's Disconnected (which records the error text) races with Cancel - the text is not determined
+  \cup (IF Same("A", fA, c.expA) /\ c.hasB = c.expHasB /\ (c.hasB => Same("B", fB, c.expB)) THEN {} ELSE {"conf"})
   \cup (IF (fA.status = "Completed" /\ accepted) => (c.hasB /\ fB.status \in {"Completing","Completed"}) THEN {} ELSE {"C01.responderSettles"})
   \cup (IF (fA.status = "Completed" /\ accepted) => sentFinal THEN {} ELSE {"C01.sentFinalComplete"})
   \cup (IF (fA.status = "Completed" /\ accepted) => recvAll THEN {} ELSE {"C01.receiverHoldsData"})
